@@ -102,5 +102,115 @@ theorem judge1_reset {cfg : Cfg} {w0 : World} (hW : PreOK cfg w0) {s : St} (hI :
       simp only [judge1, see, Bool.and_eq_true]
       refine ⟨⟨⟨⟨⟨⟨⟨by rfl, hG.x.inv⟩, Ex.frameb_of_sframe hG.x.frame⟩, hal⟩, hm⟩, hinit⟩, by simp⟩, by simp⟩
 
+theorem frame_enc {cfg : Cfg} {w0 : World} (hW : PreOK cfg w0) {w : World} (hF : SFrame w0 w) :
+    (∀ b < w.n, 0 < w.encOf b) ∧ (∀ b < w.n, 0 ≤ (w.cfgOf b).initAmmo) :=
+  ⟨fun b hb => by rw [sframe_encOf hF]; exact hW.enc b (by rw [← sframe_n hF]; exact hb),
+   fun b hb => by rw [sframe_cfgOf hF]; exact hW.iammo b (by rw [← sframe_n hF]; exact hb)⟩
+
+theorem absR_self_bound (x : Rat) : decide (absR (x - x) ≤ bound) = true := by
+  rw [Rat.sub_self]; decide +kernel
+
+/-- **the `get_obs` entry** -/
+theorem judge1_obs {cfg : Cfg} {w0 : World} (hW : PreOK cfg w0) {s : St} (hI : Inv cfg w0 s) (a : Aid) (t : Tape)
+    (res0 : BRes) : judge1 cfg w0 (see res0 s) (.obs a t) (runOp cfg s (.obs a t)).1 = true := by
+  simp only [runOp]
+  cases h : getObs cfg { s with tape := t } a with
+  | error e =>
+    show (!(goodb cfg (see res0 s) && decide (a < (see res0 s).w.n))) = true
+    by_contra hc
+    rw [Bool.not_eq_true', Bool.not_eq_false, Bool.and_eq_true] at hc
+    have hm : goodb cfg (see res0 s) = true ∧ decide (a < s.w.n) = true := hc
+    have hG := good_tape t (good_of_goodb hI res0 hm.1)
+    have ha : a < s.w.n := of_decide_eq_true hm.2
+    obtain ⟨henc, hammo⟩ := frame_enc hW hG.x.frame
+    obtain ⟨g, t', _, _, hno, hyes⟩ := getObs_spec hG ha henc hammo
+    cases hb : cfg.isB a with
+    | false => rw [hno hb] at h; cases h
+    | true =>
+      obtain ⟨_, _, _, _, _, _, _, _, hget⟩ := hyes hb
+      rw [hget] at h; cases h
+  | ok r =>
+    obtain ⟨o, s'⟩ := r
+    have hG : Good cfg w0 { s with tape := t } := by
+      rcases hI with hG | hG
+      · exact good_tape t hG
+      · unfold getObs at h; simp [hG.2] at h
+    obtain ⟨r0, hr0, _⟩ := hG.led
+    have hr0' : s.rewards = some r0 := hr0
+    have ha : a < s.w.n := by
+      by_contra hc
+      unfold getObs at h
+      simp [hr0', Nat.le_of_not_lt hc] at h
+    obtain ⟨henc, hammo⟩ := frame_enc hW hG.x.frame
+    obtain ⟨g, t', _, hgrid, hno, hyes⟩ := getObs_spec hG ha henc hammo
+    cases hb : cfg.isB a with
+    | false =>
+      rw [hno hb] at h
+      simp only [Except.ok.injEq, Prod.mk.injEq] at h
+      obtain ⟨rfl, rfl⟩ := h
+      simp only at hgrid
+      simp [judge1, see, hb, hgrid]
+    | true =>
+      obtain ⟨rv, rf, own, hrv, hrf, hown, hu, hall, hget⟩ := hyes hb
+      rw [hget] at h
+      simp only [Except.ok.injEq, Prod.mk.injEq] at h
+      obtain ⟨rfl, rfl⟩ := h
+      have hs := slots_ok cfg s.w.n a (clamp (average (rf.map (·.2) ++ [own]))) rf (clamp_inUnit _) hall
+      have hlen : a < s.msgs.length := by rw [hG.msgs.1]; exact ha
+      have hnew : (s.msgs.set a (some (clamp (average (rf.map (·.2) ++ [own]))))).getD a none =
+          some (clamp (average (rf.map (·.2) ++ [own]))) := by
+        simp [List.getD_eq_getElem?_getD, hlen]
+      simp only at hgrid hrv hown
+      simp only [judge1, see, hb, if_true, hrv, hown, hnew, hrf, Bool.and_eq_true, beq_iff_eq, hgrid, hs,
+        clamp_inUnit, absR_self_bound, and_self]
+
+theorem mapM_isSome {α β : Type} (f : α → Option β) : ∀ l : List α,
+    (l.mapM f).isSome = l.all fun b => (f b).isSome := by
+  intro l
+  induction l with
+  | nil => simp
+  | cons a l ih =>
+    rw [List.mapM_cons, List.all_cons, ← ih]
+    cases f a <;> cases l.mapM f <;> simp
+
+theorem doneAccepted_exact (cfg : Cfg) (ms : List Rat) : doneAccepted cfg ms (.bool (allDoneOn cfg ms)) = true := by
+  have hb : (0 : Rat) ≤ bound := by decide +kernel
+  cases hd : allDoneOn cfg ms with
+  | true =>
+    simp only [doneAccepted, allDoneWith, List.all_eq_true, decide_eq_true_eq]
+    simp only [allDoneOn, List.all_eq_true, decide_eq_true_eq] at hd
+    intro m hm
+    have := hd m hm
+    grind
+  | false =>
+    simp only [doneAccepted, allDoneWith, Bool.not_eq_true', List.all_eq_false, decide_eq_true_eq]
+    simp only [allDoneOn, List.all_eq_false, decide_eq_true_eq] at hd
+    obtain ⟨m, hm, hlt⟩ := hd
+    refine ⟨m, hm, ?_⟩
+    grind
+
+/-- **the `get_all_done` entry** -/
+theorem judge1_allDone (cfg : Cfg) (w0 : World) (s : St) (res0 : BRes) :
+    judge1 cfg w0 (see res0 s) .allDone (runOp cfg s .allDone).1 = true := by
+  simp only [runOp, getAllDone]
+  have hbs : (List.range s.w.n).filter cfg.isB = bcasters cfg s.w.n := rfl
+  rw [hbs]
+  cases hbc : bcasters cfg s.w.n with
+  | nil => simp [judge1, see, hbc, doneAccepted, allDoneWith]
+  | cons b bs =>
+    simp only [List.isEmpty_cons, Bool.false_eq_true, if_false]
+    rw [← hbc]
+    have hsome := mapM_isSome (fun b => s.msgOf b) (bcasters cfg s.w.n)
+    cases hm : (bcasters cfg s.w.n).mapM (fun b => s.msgOf b) with
+    | none =>
+      rw [hm] at hsome
+      simp only [St.msgOf] at hsome
+      simp only [judge1, see]
+      have h2 := hsome.symm
+      simpa [List.all_eq_false, List.getD_eq_getElem?_getD] using h2
+    | some ms =>
+      simp only [St.msgOf, List.getD_eq_getElem?_getD] at hm
+      simp [judge1, see, hm, doneAccepted_exact]
+
 end BC
 end Abmarl
